@@ -1658,7 +1658,7 @@ class UTPM(Ring, RawAlgorithmsMixIn):
         D = self.data.shape[0]
         P = self.data.shape[2]
         shp = self.data.shape[3:]
-        tmp = numpy.zeros((D+1,P) + shp)
+        tmp = numpy.zeros((D+1,P) + shp, dtype=self.data.dtype)
         tmp[0:D,...] = self.data.reshape((D,P) + shp)
         return UTPM(tmp)
 
